@@ -21,7 +21,7 @@
 From Coq Require Import ZArith NArith List String Bool Lia.
 From M4 Require Import Base.Bits Lin.Mat Lin.Ops Word.WMat Word.WOps Leaf.CMini Leaf.CMiniAcc Leaf.Gen_access
   Leaf.AccessSpecs Leaf.AccessSpecs2 Leaf.AccessSpecs3 Leaf.AccessSpecs4 Leaf.AccessSpecs5 Leaf.AccessSpecs6
-  Lin.OpsProofs.
+  Leaf.AccessSpecs9 Lin.OpsProofs.
 Import ListNotations.
 Local Open Scope Z_scope.
 
@@ -123,6 +123,24 @@ Theorem C13t_row_add_offset : forall h fl mem dst src co,
 Proof. exact mzd_row_add_offset_spec. Qed.
 Print Assumptions C13t_row_add_offset.
 
+(** ** mzd_col_swap_in_rows (mzd.h:325) = Ops.col_swap_in_rows, both the same-word form (rows four at a time through
+    `word xor_v[4]`, then the rest) and the two-word form; start_row = stop_row allowed.  mzd_col_swap (mzd.h:424). *)
+Theorem C13t_col_swap_in_rows : forall h fl mem cola colb r0 r1,
+  valid h mem -> c_dom h fl mem -> (cola < h_ncols h)%nat -> (colb < h_ncols h)%nat -> (r0 <= r1)%nat -> (r1 <= h_nrows h)%nat ->
+  exists m', run_acc "mzd_col_swap_in_rows" (hbundle h fl [zi cola; zi colb; zi r0; zi r1]) (words mem) = Ok (None, words m') /\
+    List.length m' = List.length mem /\ mem_ok m' /\
+    abs h m' = col_swap_in_rows (abs h mem) cola colb r0 r1 /\ outside h mem m'.
+Proof. exact mzd_col_swap_in_rows_spec. Qed.
+Print Assumptions C13t_col_swap_in_rows.
+
+Theorem C13t_col_swap : forall h fl mem cola colb,
+  valid h mem -> c_dom h fl mem -> (cola < h_ncols h)%nat -> (colb < h_ncols h)%nat ->
+  exists m', run_acc "mzd_col_swap" (hbundle h fl [zi cola; zi colb]) (words mem) = Ok (None, words m') /\
+    List.length m' = List.length mem /\ mem_ok m' /\
+    abs h m' = col_swap (abs h mem) cola colb /\ outside h mem m'.
+Proof. exact mzd_col_swap_spec. Qed.
+Print Assumptions C13t_col_swap.
+
 (** ** Non-vacuity: the hypotheses are satisfiable (a 3 x 70 window at word offset 5 of a 30-word array, x = 2,
     y = 60, n = 10 crosses a word boundary and ends at the last column) and a concrete run through the translated
     text agrees with the theorems. *)
@@ -151,7 +169,18 @@ Example C13t_concrete_run :
       | Ok (None, ws2) =>
           nth 5 ws2 0 = Z.shiftl 15 60 /\ nth 6 ws2 0 = 63 /\ nth 13 ws2 0 = 0 /\ nth 14 ws2 0 = 0 /\
           match run_acc "mzd_row_add_offset" (hbundle h 4 [zi 1; zi 0; zi 61]) ws2 with
-          | Ok (None, ws3) => nth 9 ws3 0 = Z.shiftl 7 61 /\ nth 10 ws3 0 = 63 /\ nth 5 ws3 0 = Z.shiftl 15 60
+          | Ok (None, ws3) =>
+              nth 9 ws3 0 = Z.shiftl 7 61 /\ nth 10 ws3 0 = 63 /\ nth 5 ws3 0 = Z.shiftl 15 60 /\
+              (* columns 62 (word 0) and 68 (word 1) of rows 0..2; then columns 1 and 63 of all rows *)
+              match run_acc "mzd_col_swap_in_rows" (hbundle h 4 [zi 62; zi 68; zi 0; zi 3]) ws3 with
+              | Ok (None, ws4) =>
+                  nth 5 ws4 0 = Z.shiftl 15 60 /\ nth 6 ws4 0 = 63 /\ nth 13 ws4 0 = 0 /\
+                  match run_acc "mzd_col_swap" (hbundle h 4 [zi 1; zi 63]) ws4 with
+                  | Ok (None, ws5) => nth 5 ws5 0 = Z.shiftl 7 60 + 2 /\ nth 9 ws5 0 = Z.shiftl 3 61 + 2 /\ nth 13 ws5 0 = 0
+                  | _ => False
+                  end
+              | _ => False
+              end
           | _ => False
           end
       | _ => False
